@@ -6,7 +6,7 @@ From Coq Require Import ZArith Floats List Bool Lia Reals.
 From SyGen Require Import SrcConstants.
 From SyModel Require Import Threshold.
 From SyModel Require Import Engine.
-From SyProofs Require Import Threshold_proofs Threshold_std Engine_proofs.
+From SyProofs Require Import Threshold_proofs Threshold_std Threshold_flocq Engine_proofs.
 Open Scope Z_scope.
 
 (* the coded floating-point test, evaluated by the kernel, for every destination of up to NMAX = 200 entries *)
@@ -15,14 +15,24 @@ Theorem C07_refuse_sound_bounded : forall d n t,
 Proof. exact refuse_sound_bounded. Qed.
 Print Assumptions C07_refuse_sound_bounded.
 
-(* unbounded sizes, relative to the standard model of IEEE rounding |fl x - x| <= u |x| (C07_..._partial:
-   the instantiation fl = binary64 round-to-nearest, u = 2^-53, exact int->f64 conversion below 2^53 is trusted,
-   not proved; with u = 2^-53 the side condition reads t*n + 1 < 2^52) *)
+(* THE DECISION HALF AT FULL STRENGTH: the coded binary64 test (the same Threshold.refuse that the kernel evaluates
+   above and that is compared with the binary) has no false negative for ANY destination of fewer than 2^45
+   (3.5e13) entries, any number of planned deletions and every threshold the command line accepts.  Proved through
+   Flocq's IEEE-754 formalisation (Flocq.IEEE754.PrimFloat ties Coq's primitive floats to it; Bdiv_correct,
+   Bmult_correct, relative_error_N_FLT_ex); depends on the standard library's axioms for primitive floats and
+   63-bit integers (FloatAxioms, Uint63) and its classical real numbers -- see DESIGN.md section 10. *)
+Theorem C07_refuse_sound : forall d n t,
+  0 < n < 2^45 -> 0 <= d < 2^53 -> 0 <= t <= 100 -> t * n < 100 * d -> refuse false d n t = true.
+Proof. exact refuse_sound_binary64. Qed.
+Print Assumptions C07_refuse_sound.
+
+(* the same inequality relative to an abstract standard model of IEEE rounding |fl x - x| <= u |x| (kept: it shows
+   which property of the arithmetic the guard needs; C07_refuse_sound instantiates it with binary64) *)
 Theorem C07_refuse_sound_std_partial : forall (fl : R -> R) (u : R),
   (0 <= u)%R -> (forall x, exists e, (Rabs e <= u)%R /\ fl x = (x * (1 + e))%R) ->
   forall d n t, 0 < n -> 0 <= t -> t * n < 100 * d ->
   (2 * u * (IZR t * IZR n + 1) < 1)%R -> (IZR t < pctR fl d n)%R.
-Proof. intros fl u Hu Hfl d n t. apply (refuse_sound_std fl u Hfl). Qed.
+Proof. intros fl u Hu Hfl d n t. apply (refuse_sound_std fl u Hu Hfl). Qed.
 Print Assumptions C07_refuse_sound_std_partial.
 
 (* force_delete, an empty deletion plan and an empty destination never refuse (the guard is not consulted) *)
@@ -34,8 +44,8 @@ Print Assumptions C07_gates.
 (* "an empty, unmounted or mistaken source cannot wipe a destination under default settings":
    with the default threshold, planning the deletion of every one of n >= 1 destination entries is refused *)
 Theorem C07_default_protects_empty_source : forall n,
-  0 < n <= Z.of_nat NMAX -> refuse false n n THRESHOLD_DEFAULT = true.
-Proof. intros n Hn. apply refuse_sound_bounded; unfold THRESHOLD_DEFAULT; lia. Qed.
+  0 < n < 2^45 -> refuse false n n THRESHOLD_DEFAULT = true.
+Proof. intros n Hn. apply refuse_sound_binary64; unfold THRESHOLD_DEFAULT; lia. Qed.
 Print Assumptions C07_default_protects_empty_source.
 
 (* only thresholds 0..100 are accepted by the CLI *)
